@@ -22,6 +22,7 @@ var (
 	profC15 = sim.Profile{Name: "c15", Steps: 120, CanaryProb: 1, Hostile: 1, Churn: 4, Edits: 2.5, Holds: 0.3, Commands: 0.5, DupPods: 0.3, Affinity: -1, MaxNodes: 9}
 	profC10 = sim.Profile{Name: "c10", Overrides: 4, Steps: 150, CanaryProb: 0.4, Hostile: 1, Churn: 2, Edits: 1.5, Holds: 0.3, Commands: 0.3, DupPods: 0.5, Affinity: -1, MaxNodes: 8, Converge: true}
 	profC19 = sim.Profile{Name: "c19", Steps: 140, CanaryProb: 1, Hostile: 1.5, Churn: 0.7, Edits: 1.5, Holds: 0.8, Commands: 5, DupPods: 0.2, Affinity: -1, MaxNodes: 5, Converge: true}
+	profC16 = sim.Profile{Name: "c16", Steps: 130, CanaryProb: 0.8, Hostile: 2, Churn: 1.5, Edits: 6, Holds: 0.8, Commands: 1, DupPods: 0.5, Affinity: -1, MaxNodes: 5, Overrides: 1}
 	profC02 = sim.Profile{Name: "c02", Steps: 80, CanaryProb: 0.5, Hostile: 1.5, Churn: 1.5, Edits: 1.5, Holds: 0.7, Commands: 0.5, DupPods: 0.5, Affinity: -1, MaxNodes: 6, Converge: true, OldDS: 0.15}
 )
 
@@ -42,7 +43,7 @@ func registry() core.Registry {
 		"C01": one(&fn.C01{}, &sim.Sim{Prop: "C01", P: profC01, NQuick: 800, NThor: 8000, FloorsQ: map[string]int{"C01.creates-judged": 4000, "C01.dup-resolutions-judged": 2000, "C01.ineligible-cleanups-judged": 800, "C01.unknown-pods-in-view": 2000}}, &sim.Sim{Prop: "C01", P: nested(profC01, 0.12), NQuick: 400, NThor: 4000, FloorsQ: map[string]int{"sim.nested-yields": 5000}}),
 		"C02": one(&sim.Sim{Prop: "C02", P: profC02, NQuick: 500, NThor: 6000, FloorsQ: map[string]int{"C02.convergence-phases-with-work": 300, "C02.fixpoints-reached": 400}}, &sim.Sim{Prop: "C02", P: eventDriven(profC02), NQuick: 300, NThor: 3000, FloorsQ: map[string]int{"C02.e-fixpoints-reached": 200}}),
 		"C03": one(&fn.C03{}, &sim.Sim{Prop: "C03", P: profC03, NQuick: 400, NThor: 6000, FloorsQ: map[string]int{"C03.sim-syncs-deleting-for-update": 250}}, &sim.Sim{Prop: "C03", P: nested(profC03, 0.12), NQuick: 200, NThor: 3000, FloorsQ: map[string]int{}}),
-		"C04": one(&sim.Sim{Prop: "C04", P: profC04, NQuick: 600, NThor: 6000, FloorsQ: map[string]int{"C04.canary-role-creates": 400, "C04.label-on-judged": 1000, "C04.canary-list-growth-judged": 800, "C04.canary-steady-states-judged": 30}}, &sim.Sim{Prop: "C04", P: nested(profC04, 0.12), NQuick: 400, NThor: 4000, FloorsQ: map[string]int{"sim.nested-yields": 5000}}),
+		"C04": one(&sim.Sim{Prop: "C04", P: profC04, NQuick: 600, NThor: 6000, FloorsQ: map[string]int{"C04.canary-role-creates": 400, "C04.label-on-judged": 250, "C04.canary-list-growth-judged": 800, "C04.canary-steady-states-judged": 30}}, &sim.Sim{Prop: "C04", P: nested(profC04, 0.12), NQuick: 400, NThor: 4000, FloorsQ: map[string]int{"sim.nested-yields": 5000}}),
 		"C07": one(&sim.Sim{Prop: "C07", P: profC07, NQuick: 500, NThor: 6000, FloorsQ: map[string]int{"C07.rollbacks-judged": 30, "C07.failed-rs-deletes-judged": 40, "C07.retention-phases": 10}}, &sim.Sim{Prop: "C07", P: nested(profC07, 0.12), NQuick: 250, NThor: 3000, FloorsQ: map[string]int{}}),
 		"C08": one(&sim.C08Script{}, &sim.Sim{Prop: "C08", P: profC08, NQuick: 600, NThor: 6000, FloorsQ: map[string]int{"C08.paused-syncs": 1000, "C08.frozen-syncs": 1000}}, &sim.Sim{Prop: "C08", P: nested(profC08, 0.12), NQuick: 400, NThor: 4000, FloorsQ: map[string]int{"sim.nested-yields": 4000}}),
 		"C11": one(&sim.C11{}),
@@ -54,7 +55,7 @@ func registry() core.Registry {
 		"C10": one(&fn.C10{}, &sim.Sim{Prop: "C10", P: profC10, NQuick: 400, NThor: 5000, FloorsQ: map[string]int{"C10.sim-creates-with-annotation": 600, "C10.sim-creates-with-setting": 300, "C10.sim-update-deletes-of-own-pods-judged": 100, "C10.sim-pods-judged-at-fixpoint": 500}}, &sim.Sim{Prop: "C10", P: nested(profC10, 0.12), NQuick: 200, NThor: 2500, FloorsQ: map[string]int{}}),
 		"C14": one(&fn.C14{}, &sim.Sim{Prop: "C14", P: profC14, NQuick: 400, NThor: 4000, FloorsQ: map[string]int{"C14.eds-status-writes-judged": 1500, "C14.rs-status-writes-judged": 2500, "C14.fixpoints-judged": 100}}, &sim.Sim{Prop: "C14", P: nested(profC14, 0.12), NQuick: 200, NThor: 2000, FloorsQ: map[string]int{}}),
 		"C15": one(&fn.C15{}, &sim.Sim{Prop: "C15", P: profC15, NQuick: 400, NThor: 5000, FloorsQ: map[string]int{"C15.sim-canary-lists-judged": 400}}, &sim.Sim{Prop: "C15", P: nested(profC15, 0.12), NQuick: 200, NThor: 2500, FloorsQ: map[string]int{}}),
-		"C16": one(&fn.C16{}, &fn.C16Corpus{}, &fn.C16Fuzz{}),
+		"C16": one(&fn.C16{}, &fn.C16Corpus{}, &fn.C16Fuzz{}, &sim.Sim{Prop: "C16", P: profC16, NQuick: 400, NThor: 5000, FloorsQ: map[string]int{}}, &sim.Sim{Prop: "C16", P: nested(profC16, 0.12), NQuick: 200, NThor: 2500, FloorsQ: map[string]int{}}),
 		"C17": one(&sim.C17{}),
 		"C18": one(&fn.C18{}, &sim.Sim{Prop: "C18", P: profC10, NQuick: 300, NThor: 4000, FloorsQ: map[string]int{"C18.sim-nodes-judged-at-fixpoint": 500}}),
 		"C19": one(&sim.C19{}, &sim.Sim{Prop: "C19", P: nested(profC19, 0.15), NQuick: 400, NThor: 5000, FloorsQ: map[string]int{}}, &sim.Sim{Prop: "C19", P: profC19, NQuick: 200, NThor: 3000, FloorsQ: map[string]int{}}),
